@@ -32,6 +32,9 @@ pub enum Op {
     Reserve { n: usize },
     /// alloc_try_with(_mut) whose closure returns Err; ty selects the payload size
     TryErr { mutable: bool, ty: u8 },
+    /// the owner of block `b` divides it after `mid` bytes (BumpBox::split_at and friends): no call into the
+    /// arena, but from now on the two parts are deallocated / grown / shrunk on their own
+    Split { b: usize, mid: usize },
     End,
 }
 
@@ -131,7 +134,7 @@ impl St {
                         }
                     }
                 }
-                38..=49 if nb > 0 => {
+                40..=49 if nb > 0 => {
                     // bias towards the newest block (the one that can be reclaimed)
                     let b = if self.second_newest > 0 && nb >= 2 { self.second_newest -= 1; self.blocks[nb - 2].id }
                             else if r.coin(2, 3) { self.blocks[nb - 1].id } else { self.blocks[r.below(nb as u64) as usize].id };
@@ -160,7 +163,13 @@ impl St {
                 89..=92 if self.depth > 0 => Op::ScopeExit { panic: r.coin(1, 4) },
                 93..=94 if top_level => Op::Reset,
                 95 if top_level => Op::ResetToStart,
-                96..=97 => Op::TryErr { mutable: r.coin(1, 2), ty: r.below(6) as u8 },
+                96 => Op::TryErr { mutable: r.coin(1, 2), ty: r.below(6) as u8 },
+                38..=39 | 97 if nb > 0 => {
+                    let i = if r.coin(1, 2) { nb - 1 } else { r.below(nb as u64) as usize };
+                    let blk = &self.blocks[i];
+                    let mid = match r.below(6) { 0 => 0, 1 => blk.size, _ => r.below(blk.size as u64 + 1) as usize };
+                    Op::Split { b: blk.id, mid }
+                }
                 98..=99 => Op::Reserve { n: match r.below(4) { 0 => r.below(64) as usize, 1 => r.below(5000) as usize, 2 => r.below(100000) as usize, _ => r.below(2000) as usize } },
                 _ => continue,
             };
@@ -599,6 +608,25 @@ where
                     monitors(st);
                 }
             }
+        }
+        Op::Split { b, mid } => {
+            let Some(i) = find(st, *b) else { return };
+            let blk = st.blocks.remove(i);
+            let mid = (*mid).min(blk.size);
+            let rptr = blk.ptr + mid;
+            // the alignment the owner of the second part can quote: the largest power of two, at most
+            // the original alignment, that divides its address (a slice of T split at an element boundary)
+            let mut ralign = blk.align;
+            while rptr % ralign != 0 { ralign /= 2; }
+            let _ = writeln!(st.out, "O SP {} {} {mid} {ralign}", st.h, blk.id);
+            let _ = writeln!(st.out, "R U");
+            let (l, r_) = blk.shadow.split_at(mid);
+            let id = st.next_id;
+            st.next_id += 2;
+            st.blocks.push(Blk { id, ptr: blk.ptr, size: mid, align: blk.align, shadow: l.to_vec(), born: blk.born });
+            st.blocks.push(Blk { id: id + 1, ptr: rptr, size: blk.size - mid, align: ralign, shadow: r_.to_vec(), born: blk.born });
+            stats_line(st, scope);
+            monitors(st);
         }
         Op::Checkpoint => {
             let _ = writeln!(st.out, "O CP {}", st.h);
